@@ -163,7 +163,7 @@ func ruleR143Witness(p *Program, r *Report) {
 					derives = true
 				}
 			}
-			if derives && b.Succs[1].Dominates(ret.Block()) {
+			if derives && edgeOnly(i, b.Succs[1], b.Succs[0], ret.Block()) {
 				ok = true
 			}
 		}
